@@ -1035,10 +1035,10 @@ def gen_corner_recipe(r):
         x0 = inp(a, qq=pa(a)) if pax == "in0" else inp(a)
         if r.random() < 0.5:
             x1 = inp(b, qq=pa(b)) if pax == "in1" else inp(b)
-            layers.append(dict(op=r.choice(["ADD", "SUB", "MUL", "MINIMUM", "MAXIMUM"]), act=r.choice(["NONE", "RELU", "RELU6"]),
+            layers.append(dict(op=r.choice(["ADD", "SUB", "MUL", "MINIMUM", "MAXIMUM", "SQUARED_DIFFERENCE"]), act=r.choice(["NONE", "RELU", "RELU6"]),
                                q=pa(list(np.broadcast_shapes(tuple(a), tuple(b)))) if pax == "out" else q(), **{"in": [x0, x1]}))
         elif dt != "float32" and dt != "int32":
-            layers.append(dict(op=r.choice(["ADD", "SUB", "MUL", "MINIMUM", "MAXIMUM"]), act="NONE",
+            layers.append(dict(op=r.choice(["ADD", "SUB", "MUL", "MINIMUM", "MAXIMUM", "SQUARED_DIFFERENCE", "SQUARED_DIFFERENCE"]), act="NONE",
                                q=pa(list(np.broadcast_shapes(tuple(a), tuple(b)))) if pax == "out" else q(),
                                const=dict(shape=b, q=pa(b) if pax == "in1" else (q() or [0.1, 0])),
                                swap=r.random() < 0.5, **{"in": [x0]}))
